@@ -278,6 +278,10 @@ func checkC01(c C01Case, rec *obs.Recorder) *obs.Violation {
 			return obs.Violf("token produced by the library (stage %d) does not verify per the reference chain walk: %s", k, r.Reason)
 		}
 	}
+	// sibling derivations: two tokens appended to the same stage leave everything else intact
+	if msg := forkAndRecheck(stages, tpub, c.Target.RngKey+9, c.Extra, c.Mut.J); msg != "" {
+		return obs.ViolK("fork", "history of %d blocks (sealed=%v): %s", len(c.Target.Blocks), c.Target.Sealed, msg)
+	}
 	tgtBytes := historyBytes[len(historyBytes)-1]
 	donBytes, _ := don.Serialize()
 	historyBytes = append(historyBytes, donBytes)
